@@ -245,7 +245,7 @@ func (s *Session) Case(kind string, idx int) Case {
 func u32p(v uint32) *uint32 { return &v }
 func u64p(v uint64) *uint64 { return &v }
 
-var goodNames = []string{"a", "b", "c", "d", "ee"}
+var goodNames = []string{"a", "b", "c", "d", "ee", "é", "名"} // two of them non-ASCII (multi-byte paths)
 var oddNames = []string{"", ".", "..", "a/b", "a\\b", "x..y", "..x", "\x00", "a\x00b", strings.Repeat("n", 255), strings.Repeat("n", 256),
 	// multi-byte names around the 255-BYTE limit: 256 and 258 bytes in 128 / 86 runes (refused), exactly 255 bytes (accepted)
 	strings.Repeat("é", 128), strings.Repeat("日", 86), strings.Repeat("x", 253) + "é", strings.Repeat("é", 127) + "x", "名前"}
